@@ -76,7 +76,7 @@ Section Refill.
     good c r' /\ ccur r' = ccur r /\ cidx r' = cidx r /\ noMore r' = noMore r /\ line r' = line r /\ col r' = col r /\
     (length new <= m)%nat /\
     exists rest, cs = new ++ rest /\ Dec step (pending r') rest st /\
-      (new = [] -> (rest = [] /\ (st = Clean \/ st = Truncated) /\ strm r' = []) \/
+      (new = [] -> (rest = [] /\ st = Clean /\ strm r' = []) \/
                    (exists u n, step (rcur r') = DOut u n /\ (m < length u)%nat)) /\
       (new <> [] -> (length (pending r') < length (pending r))%nat).
 
@@ -98,7 +98,7 @@ Section Refill.
     forall cs st, Dec step (pending r) cs st ->
     match xcode_more c fuel needMore r m with
     | Err Fault | Err FuelOut => False
-    | Err (XErr e) => st = Bad e
+    | Err (XErr e) => st = Bad e \/ (e = E_Trans_BadSrcSeq /\ (st = Truncated \/ (m < 2)%nat))
     | Ok (r', new) => xm_post r m cs st r' new
     end.
   Proof.
@@ -118,7 +118,7 @@ Section Refill.
                                     (line r1) (col r1), out)
                      end) with
               | Err Fault | Err FuelOut => False
-              | Err (XErr e) => st = Bad e
+              | Err (XErr e) => st = Bad e \/ (e = E_Trans_BadSrcSeq /\ (st = Truncated \/ (m < 2)%nat))
               | Ok (r', new) => xm_post r m cs st r' new
               end).
     { intros r1 G1 P1 E1 E2 E3 E4 E5 Hf1.
@@ -151,7 +151,7 @@ Section Refill.
           * intros _. unfold pending at 1. cbn [rcur strm]. rewrite <- P1. unfold pending.
             rewrite !app_length, skipn_length. lia.
       - destruct (xc_err _ _ _ HC _ _ _ EX) as [k [o [n [Hn He]]]].
-        eapply step_pending_err; eauto. unfold pending in P1. rewrite P1. exact D. }
+        left. eapply step_pending_err; eauto. unfold pending in P1. rewrite P1. exact D. }
     destruct (needMore || Nat.eqb (length (rcur r)) 0 || Nat.ltb (length (rcur r)) (low c)) eqn:Econd.
     - destruct (refresh_raw_spec r G) as [got [s' [ER [A [B [Cn [Dn En]]]]]]]. rewrite ER.
       set (r1 := mkR (ccur r) (cidx r) (rcur r ++ got) 0 s' (noMore r) (line r) (col r)) in *.
@@ -160,39 +160,37 @@ Section Refill.
       assert (P1 : pending r1 = pending r).
       { unfold pending, r1. cbn [rcur strm]. now rewrite <- app_assoc, A. }
       cbn [rcur] . change (rcur r1) with (rcur r ++ got).
-      destruct (Nat.eqb (length (rcur r ++ got)) 0 || needMore && Nat.eqb (length (rcur r)) (length (rcur r ++ got))) eqn:Eflag.
-      + (* return 0 *)
+      destruct HS as [_ [Hms1 Hms2]].
+      destruct (Nat.eqb_spec (length (rcur r ++ got)) 0) as [E0|N0].
+      + (* fRawBytesAvail == 0: return 0 *)
         unfold xm_post. split; [exact G1|].
         repeat (split; [solve [reflexivity | cbn; lia]|]).
         exists cs. split; [reflexivity|]. split; [rewrite P1; exact D|]. split; [|intros Hx; now destruct Hx].
-        intros _. destruct HS as [_ [Hms1 Hms2]].
-        apply Bool.orb_true_iff in Eflag. destruct Eflag as [E0|E1].
-        * apply Nat.eqb_eq in E0. rewrite app_length in E0.
-          assert (Er : rcur r = []) by (destruct (rcur r); [reflexivity|cbn in E0; lia]).
-          assert (Eg : got = []) by (destruct got; [reflexivity|cbn in E0; lia]).
-          destruct (Dn Eg) as [Hfull|Hst]; [rewrite Er in Hfull; cbn in Hfull; lia|].
-          left. assert (Es' : s' = []) by auto.
-          assert (Hp : pending r = []) by (unfold pending; rewrite Er, Hst; reflexivity).
-          rewrite Hp in D. destruct (Dec_nil_inv step (X c) maxSeq HC _ _ D). subst. unfold r1. cbn [strm]. auto.
-        * apply Bool.andb_true_iff in E1. destruct E1 as [En1 E1]. apply Nat.eqb_eq in E1. rewrite app_length in E1.
+        intros _. rewrite app_length in E0.
+        assert (Er : rcur r = []) by (destruct (rcur r); [reflexivity|cbn in E0; lia]).
+        assert (Eg : got = []) by (destruct got; [reflexivity|cbn in E0; lia]).
+        destruct (Dn Eg) as [Hfull|Hst]; [rewrite Er in Hfull; cbn in Hfull; lia|].
+        left. assert (Es' : s' = []) by auto.
+        assert (Hp : pending r = []) by (unfold pending; rewrite Er, Hst; reflexivity).
+        rewrite Hp in D. destruct (Dec_nil_inv step (X c) maxSeq HC _ _ D). subst. unfold r1. cbn [strm]. auto.
+      + destruct (needMore && Nat.eqb (length (rcur r)) (length (rcur r ++ got))) eqn:E1.
+        * (* the transcoder needs more and the source has none: Trans_BadSrcSeq *)
+          apply Bool.andb_true_iff in E1. destruct E1 as [En1 E1]. apply Nat.eqb_eq in E1. rewrite app_length in E1.
           assert (Eg : got = []) by (destruct got; [reflexivity|cbn in E1; lia]).
-          subst got. destruct (Hinv En1) as [Hneed|Hroom].
-          -- pose proof (xc_need _ _ _ HC _ Hneed) as Hl.
-             destruct (Dn eq_refl) as [Hfull|Hst]; [lia|]. left.
-             assert (Es' : s' = []) by auto.
+          subst got. rewrite app_nil_r in N0. right. split; [reflexivity|].
+          destruct (Hinv En1) as [Hneed|[u [n [Hu Hlen]]]].
+          -- left. pose proof (xc_need _ _ _ HC _ Hneed) as Hl.
+             destruct (Dn eq_refl) as [Hfull|Hst]; [lia|].
              assert (Hp : pending r = rcur r) by (unfold pending; rewrite Hst; cbn; now rewrite app_nil_r).
-             rewrite Hp in D. unfold r1. cbn [strm].
-             destruct (rcur r) as [|b0 rr] eqn:Err0.
-             ++ destruct (Dec_nil_inv step (X c) maxSeq HC _ _ D). subst. auto.
-             ++ assert (Hne : b0 :: rr <> []) by discriminate.
-                destruct (Dec_need_inv step _ _ _ Hne Hneed D). subst. auto.
-          -- right. unfold r1. cbn [rcur]. rewrite app_nil_r. exact Hroom.
-      + (* transcode *)
-        apply (Hmain r1 G1 P1 eq_refl eq_refl eq_refl eq_refl eq_refl).
-        apply Bool.orb_false_iff in Eflag. destruct Eflag as [_ E1].
-        destruct needMore.
-        * cbn [andb] in E1. apply Nat.eqb_neq in E1. unfold r1. cbn [rcur]. rewrite app_length in *. lia.
-        * unfold r1. cbn [rcur]. rewrite app_length. lia.
+             rewrite Hp in D.
+             assert (Hne : rcur r <> []) by (intros E; rewrite E in N0; cbn in N0; lia).
+             destruct (Dec_need_inv step _ _ _ Hne Hneed D). assumption.
+          -- right. destruct (xc_out_bounds _ _ _ HC _ _ _ Hu) as [_ [_ Hu2]]. lia.
+        * (* transcode *)
+          apply (Hmain r1 G1 P1 eq_refl eq_refl eq_refl eq_refl eq_refl).
+          destruct needMore.
+          -- cbn [andb] in E1. apply Nat.eqb_neq in E1. unfold r1. cbn [rcur]. rewrite app_length in *. lia.
+          -- unfold r1. cbn [rcur]. rewrite app_length. lia.
     - apply Bool.orb_false_iff in Econd. destruct Econd as [Ec _]. apply Bool.orb_false_iff in Ec. destruct Ec as [Ec _].
       subst needMore. apply Hmain; auto. lia.
   Qed.
